@@ -16,7 +16,7 @@ import numpy as np
 import felupe as fem
 
 from .. import gen, refmodel, world
-from ..kernel import Discard, InjectedFault, SimWorkerError, Streams, Violation, adigest, close_exact_twin
+from ..kernel import Discard, InjectedFault, SimWorkerError, Streams, Violation, adigest, close_exact_twin, pick
 from ..sched import SimPool, SimThreads
 
 PROP = "C02"
@@ -131,7 +131,7 @@ def build_fields(doc):
     d = mesh.dim
     # integer-typed point values (`values=0` instead of `0.0`): what a linear / bilinear form
     # integrates does not depend on the point values at all
-    vkw = {"values": 0} if doc.get("seed", 0) % 4 == 0 else {}
+    vkw = {"values": 0} if pick(doc.get("seed", 0), "int-values", 4) == 0 else {}
     if fk in ("Field", "PlaneStrainAsField"):
         f = fem.FieldContainer([fem.Field(region, dim=d, **vkw)])
     elif fk == "Scalar":
